@@ -16,26 +16,30 @@
 EXTENDS Net
 
 CONSTANTS DevFirstTokenNotWhole,   \* pre-fix ef02439: the first token was skipped only for right-anchored patterns
-          DevLastTokenIsFirst      \* pre-fix 0638e8a: a trailing token that is also the leading one was kept
+          DevLastTokenIsFirst,     \* pre-fix 0638e8a: a trailing token that is also the leading one was kept
+          DevUrlStarIsWildcard     \* pre-fix: the runs next to a literal '*' of the request URL were not probed
 
 \* fast_tokenizer_no_regex: maximal runs of token characters of length >= 2, except
 \*  - a run that starts the pattern when skipFirst,
 \*  - a run that ends the pattern when skipLast,
-\*  - a run adjacent to a '*'
+\*  - a run adjacent to a '*' (in patterns only)
 RECURSIVE RunEnd(_, _)
 RunEnd(cs, i) == IF i <= Len(cs) /\ IsTokenChar(cs[i]) THEN RunEnd(cs, i + 1) ELSE i    \* first index after the run
 
-Tokenize(cs, skipFirst, skipLast) ==
+\* star = TRUE for patterns ('*' is a wildcard: its neighbours may be parts of URL tokens), FALSE for
+\* request URLs ('*' is a character like any other separator)
+TokenizeW(cs, skipFirst, skipLast, star) ==
   LET starts == {i \in 1..Len(cs) : IsTokenChar(cs[i]) /\ (i = 1 \/ ~IsTokenChar(cs[i - 1]))} IN
   { Str(Sub(cs, i, RunEnd(cs, i) - 1)) :
       i \in { s \in starts :
                 LET e == RunEnd(cs, s) IN     \* e - 1 = last char of the run
                 /\ e - s > 1
                 /\ (s # 1 \/ ~skipFirst)
-                /\ (s = 1 \/ cs[s - 1] # "*")
-                /\ IF e > Len(cs) THEN ~skipLast ELSE cs[e] # "*" } }
+                /\ (s = 1 \/ ~star \/ cs[s - 1] # "*")
+                /\ IF e > Len(cs) THEN ~skipLast ELSE (~star \/ cs[e] # "*") } }
   \cup (IF DevLastTokenIsFirst /\ ~skipLast /\ Len(cs) > 1 /\ \A i \in 1..Len(cs) : IsTokenChar(cs[i])
         THEN {Str(cs)} ELSE {})
+Tokenize(cs, skipFirst, skipLast) == TokenizeW(cs, skipFirst, skipLast, TRUE)
 
 \* NetworkFilter::get_tokens for a non-complete-regex rule: the set of token groups (one group,
 \* except for tokenless rules with included domains, which get one group per domain)
@@ -58,7 +62,7 @@ RuleTokenGroups(r) ==
 \* tokens a request probes: source hostname and its label suffixes, URL tokens, and the empty token
 ProbeTokens(q) ==
   (IF Len(q.src) = 0 THEN {} ELSE {Str(s) : s \in HostSuffixes(q.src)})
-  \cup Tokenize(LowerS(q.url), FALSE, FALSE) \cup {""}
+  \cup TokenizeW(LowerS(q.url), FALSE, FALSE, DevUrlStarIsWildcard) \cup {""}
 
 \* A token group is safe for q if all its tokens are probed (the empty group lives in the bucket of the
 \* empty token, which every request probes).  A rule is reachable for q whichever tokens the histogram
